@@ -74,7 +74,8 @@ Section Sem.
   | slist_untyped vs h items h2 :
       sn TIface vs (h ++ [RList None]) items h2 ->
       slist None vs h (DSlice TIface items) (list_set h2 (length h) (RList (Some (DSlice TIface items))))
-  (* map.go: entries in wire order, a later entry with an equal key replaces the earlier value *)
+  (* map.go: entries in wire order, a later entry with an equal key replaces the earlier value;
+     a null key is a key like any other (the nil interface, or the zero value of the key type) *)
   with smap : gtype -> gtype -> list (hval * hval) -> heap -> dval -> heap -> Prop :=
   | smap_intro kt vt es h out h2 :
       se kt vt [] es (h ++ [Decoder.RMap None]) out h2 ->
@@ -93,7 +94,7 @@ Section Sem.
   with se : gtype -> gtype -> list (dval * dval) -> list (hval * hval) -> heap -> list (dval * dval) -> heap -> Prop :=
   | se_nil kt vt acc h : se kt vt acc [] h acc h
   | se_cons kt vt acc k v es h dk h1 dv h2 k' v' out h3 :
-      sv k h dk h1 -> dk <> DNil -> sv v h1 dv h2 ->
+      sv k h dk h1 -> sv v h1 dv h2 ->
       conv kt h2 dk = Ok k' -> conv vt h2 dv = Ok v' -> hashable k' = true ->
       se kt vt (entries_put acc k' v') es h2 out h3 ->
       se kt vt acc ((k, v) :: es) h out h3
@@ -539,13 +540,13 @@ Section Main.
   Proof. intros A C. unfold elem_step. rewrite A. cbn [bind]. unfold conv in C. destruct e; try (rewrite C; reflexivity). inversion C; reflexivity. Qed.
 
   Lemma re_step_key R kt vt acc st bs k r1 st1 :
-    R_rd R st bs = Ok (k, r1, st1) -> k <> DNil ->
+    R_rd R st bs = Ok (k, r1, st1) ->
     re_step te R kt vt acc st bs =
     (do (y, st2) <- R_rd R st1 r1 ;; let '(v, r2) := y in
      do k' <- conv te kt (dheap st2) k ;;
      do v' <- conv te vt (dheap st2) v ;;
      if hashable k' then R_re R kt vt (entries_put acc k' v') st2 r2 else Err ECodec).
-  Proof. intros A N. unfold re_step. rewrite A. destruct k; try reflexivity. congruence. Qed.
+  Proof. intros A. unfold re_step. rewrite A. reflexivity. Qed.
 
   Definition Pv (f : nat) : Prop := forall st bs hv rest st' h d h',
     hparse_v f0 f st bs = Ok (hv, rest, st') -> bytes_ok bs -> sv te tm hv h d h' ->
@@ -627,7 +628,6 @@ Section Main.
     - rewrite pe_step_cons' in P by exact N. brk P. inversion P; subst. inversion S; subst.
       match goal with A : sv _ _ ?k h ?dk ?h1, A' : sv _ _ _ ?h1 _ _ |- _ => rename A into Sk; rename A' into Sw end.
       match goal with A : se _ _ _ _ _ _ _ _ h' |- _ => rename A into Se end.
-      match goal with A : _ <> DNil |- _ => rename A into NN end.
       match goal with A : conv _ kt _ _ = Ok _ |- _ => rename A into Ck end.
       match goal with A : hashable _ = true |- _ => rename A into Hh end.
       pose proof (IHv _ _ _ _ _ _ _ _ E B Sk (2 * f)%nat (le_n _)) as D0.
@@ -635,7 +635,7 @@ Section Main.
       pose proof (IHv _ _ _ _ _ _ _ _ E0 B1 Sw (2 * f)%nat (le_n _)) as D1.
       destruct (rd_rest_ok _ _ _ _ _ _ B1 D1) as [B2 L2].
       intros g Hg. destruct g as [|g]; [lia|]. rewrite reS.
-      rewrite (re_step_key _ _ _ _ _ _ _ _ _ (IHv _ _ _ _ _ _ _ _ E B Sk g ltac:(lia)) NN).
+      rewrite (re_step_key _ _ _ _ _ _ _ _ _ (IHv _ _ _ _ _ _ _ _ E B Sk g ltac:(lia))).
       rewrite (IHv _ _ _ _ _ _ _ _ E0 B1 Sw g ltac:(lia)). cbn [bind].
       change (dheap (dst_of _ ?x)) with x. rewrite Ck. cbn [bind].
       match goal with A : conv _ vt _ _ = Ok _ |- _ => rewrite A end. cbn [bind]. rewrite Hh.
